@@ -217,6 +217,7 @@ fn main() {
     let per = argn(&args, "--per-instance", 6) as usize;
     let max_threads = argn(&args, "--threads", 3) as usize;
     let jobs_file = arg(&args, "--jobs");
+    let force = arg(&args, "--cfg").map(|s| serde_json::from_str::<Value>(&s).unwrap());
     std::panic::set_hook(Box::new(|_| {}));
     let mut w = BufWriter::new(std::fs::OpenOptions::new().create(true).append(true).open(outp).unwrap());
     // ---- build the deterministic job list
@@ -247,6 +248,21 @@ fn main() {
                 cache_gates: false,
                 primal: vec![],
             };
+            let mut base = base;
+            if let Some(f) = &force {
+                if let Some(d) = f["dd"].as_str() {
+                    base.dd = d.into();
+                }
+                if let Some(d) = f["fringe"].as_str() {
+                    base.fringe = d.into();
+                }
+                if let Some(d) = f["width"].as_u64() {
+                    base.width = d as usize;
+                }
+                if let Some(d) = f["cache"].as_bool() {
+                    base.cache = d;
+                }
+            }
             for k in 0..per {
                 let nt = r.gen_range(1..=max_threads);
                 let mut c = PCfg { nconstr: nt, nspawn: nt, sseed: r.gen(), ..base.clone() };
